@@ -621,4 +621,110 @@ theorem C09_node_init_is_source :
 
 end NodeInterface
 
+section TraitAddedNode
+open TraitsVerif.Model TraitsVerif.Generated TraitsVerif.Lemmas
+
+/-- The rows of the ObsL runtime for the extra graph (`GV.added g`: root `TraitAddedObserver`)
+and for the graph its `observer_change_handler` walks (`GV.restricted (restrict g n)`: root
+`_RestrictedNamedTraitObserver(n, g.node)`) are the NodeL interpretation of
+_trait_added_observer.py (Generated/NodeProg.lean `added*` / `restricted*`), the observer being
+built from the extra graph `e` that the interpreted `iter_extra_graphs` of `g.ob` yields.
+Hypotheses: every instance has a `trait_added` trait (`hta`, true of every HasTraits); for the
+restricted rows the named trait exists (`ht`: it has just been added when the handler runs —
+the source yields `object._trait(name, 2)` unconditionally, the model checks). -/
+theorem C09_trait_added_node_is_source (h : Heap) (g c : Graph) (x : W) (n : Name) (hd : Nat) (t : Id)
+    (e : NodeL.Extra) (he : e ∈ NodeSource.extrasOf g.ob g)
+    (hta : ∀ fs, h.at x = .inst fs → (findField fs nTraitAdded).isSome) :
+    -- TraitAddedObserver
+    NodeL.runNotify NodeProg.table h NodeProg.addedNotify (.added e.m e.optional)
+      = .ok (.bool (ObsL.GV.notify (.added g))) ∧
+    NodeL.runIterObservablesS NodeProg.table h NodeProg.addedIterObservables (.added e.m e.optional) x
+      = ObsL.GV.iterObservables h (.added g) x ∧
+    NodeL.runIterObjectsS NodeProg.table h NodeProg.addedIterObjects (.added e.m e.optional) x
+      = ObsL.GV.iterObjects h (.added g) x ∧
+    (NodeL.runIterExtraGraphsS NodeProg.table h NodeProg.addedIterExtraGraphs (.added e.m e.optional) g).map List.length
+      = .ok (ObsL.GV.iterExtraGraphs (.added g)).length ∧
+    ObsL.GV.children (.added g) = [.plain e.child] ∧
+    (∀ k, ObsL.GV.getMaintainer (.added g) (.plain c) hd (some t) = some k →
+      ∃ ef pe, NodeL.runRetS NodeProg.table h NodeProg.addedGetMaintainer (.added e.m e.optional)
+        ((((NodeL.Env.empty.upd 0 (.graph c)).upd 1 (.handler hd)).upd 2 (.w (some t))).upd 3 .dispatcher)
+        = .ok (.notifier k ef pe)) ∧
+    -- match_func / prevent_event: `addedMatches`
+    (∀ (o : Id) (fs : List Field) (fl : Field), h.get o = .inst fs → findField fs n = some fl →
+      NodeL.applyMatch NodeProg.table h e.m n fl = .ok (.bool (addedMatches h g o (.name n)))) ∧
+    -- _RestrictedNamedTraitObserver(n, g.node), children = g.children: `restrict g n`
+    NodeL.runNotify NodeProg.table h NodeProg.restrictedNotify (.restricted n g.ob)
+      = .ok (.bool (ObsL.GV.notify (.restricted (restrict g n)))) ∧
+    ObsL.GV.children (.restricted (restrict g n)) = ObsL.GV.children (.plain g) ∧
+    (hasTrait h x n = true →
+      NodeL.runIterObservablesS NodeProg.table h NodeProg.restrictedIterObservables (.restricted n g.ob) x
+        = ObsL.GV.iterObservables h (.restricted (restrict g n)) x ∧
+      NodeL.runIterObjectsS NodeProg.table h NodeProg.restrictedIterObjects (.restricted n g.ob) x
+        = ObsL.GV.iterObjects h (.restricted (restrict g n)) x) ∧
+    (NodeL.runIterExtraGraphsS NodeProg.table h NodeProg.restrictedIterExtraGraphs (.restricted n g.ob) g).map List.length
+      = .ok (ObsL.GV.iterExtraGraphs (.restricted (restrict g n))).length ∧
+    (∀ k, ObsL.GV.getNotifier (.restricted (restrict g n)) hd (some t) = some k →
+      ∃ ef pe, NodeSource.runTailS h NodeProg.restrictedGetNotifier (.restricted n g.ob)
+          (((NodeL.Env.empty.upd 0 (.handler hd)).upd 1 (.w (some t))).upd 2 .dispatcher)
+        = .ok (.notifier k ef pe)) ∧
+    (∀ k, ObsL.GV.getMaintainer (.restricted (restrict g n)) (.plain c) hd (some t) = some k →
+      ∃ ef pe, NodeSource.runTailS h NodeProg.restrictedGetMaintainer (.restricted n g.ob)
+          ((((NodeL.Env.empty.upd 0 (.graph c)).upd 1 (.handler hd)).upd 2 (.w (some t))).upd 3 .dispatcher)
+        = .ok (.notifier k ef pe)) := by
+  -- the extra graph exists only for named / filtered roots
+  have hopt : NodeSource.extraOptional g.ob = some e.optional ∧ e.child = g ∧ g.ob.mkind = .trait ∧
+      NodeSource.extraMatch g.ob = some e.m := by
+    cases hg : g.ob <;>
+      simp [NodeSource.extrasOf, NodeSource.extraMatch, NodeSource.extraOptional, hg] at he <;>
+      simp [he, NodeSource.extraOptional, NodeSource.extraMatch, Observer.mkind]
+  obtain ⟨ho, hc, hmk, hm⟩ := hopt
+  refine ⟨?_, ?_, ?_, ?_, ?_, ?_, ?_, ?_, ?_, ?_, ?_, ?_, ?_⟩
+  · simpa [ObsL.GV.notify] using NodeSource.added_notify h e.m e.optional
+  · rw [NodeSource.added_observables h e.m e.optional x hta]
+    simp [ObsL.GV.iterObservables, NodeSource.extraObservables_eq, ho]
+  · simpa [ObsL.GV.iterObjects] using (NodeSource.added_restricted_empty h e.m e.optional n g.ob x g).1
+  · rw [(NodeSource.added_restricted_empty h e.m e.optional n g.ob x g).2.1]; rfl
+  · simp [ObsL.GV.children, hc]
+  · intro k hk
+    simp [ObsL.GV.getMaintainer] at hk
+    subst hk
+    exact ⟨_, _, NodeSource.added_get_maintainer h e.m e.optional c hd t⟩
+  · intro o fs fl ho' hf
+    cases hg : g.ob with
+    | named n' nt o'' =>
+      simp [NodeSource.extraMatch, hg] at hm
+      rw [← hm, NodeSource.match_named]
+      simp [addedMatches, hg]
+    | filtered f nt =>
+      simp [NodeSource.extraMatch, hg] at hm
+      rw [← hm, NodeSource.match_filtered]
+      simp [addedMatches, hg, ho', hf]
+    | listItems _ _ => simp [NodeSource.extraMatch, hg] at hm
+    | dictItems _ _ => simp [NodeSource.extraMatch, hg] at hm
+    | setItems _ _ => simp [NodeSource.extraMatch, hg] at hm
+  · simpa [ObsL.GV.notify, restrict, Graph.ob, Observer.notify] using NodeSource.restricted_notify h n g.ob
+  · simp [ObsL.GV.children, restrict, Graph.children]
+  · intro ht
+    refine ⟨?_, ?_⟩
+    · simpa [ObsL.GV.iterObservables, restrict, Graph.ob] using NodeSource.restricted_observables h n g.ob x ht
+    · simpa [ObsL.GV.iterObjects, restrict, Graph.ob] using NodeSource.restricted_objects h n g.ob x ht
+  · rw [(NodeSource.added_restricted_empty h e.m e.optional n g.ob x g).2.2]; rfl
+  · intro k hk
+    simp [ObsL.GV.getNotifier] at hk
+    subst hk
+    exact ⟨_, _, NodeSource.restricted_get_notifier h n g.ob hd t⟩
+  · intro k hk
+    simp [ObsL.GV.getMaintainer, restrict, Graph.ob, Observer.mkind] at hk
+    subst hk
+    exact ⟨_, _, by simpa [hmk] using NodeSource.restricted_get_maintainer h n g.ob c hd t⟩
+
+/-- `__init__` of the two classes stores every argument in the slot of the same name
+(`_wrapped_observer` from `wrapped_observer`). -/
+theorem C09_trait_added_init_is_source :
+    NodeProg.addedInit = [(.matchFunc, "match_func"), (.optional, "optional")] ∧
+    NodeProg.restrictedInit = [(.name, "name"), (.wrapped, "wrapped_observer")] :=
+  NodeSource.added_init_rows
+
+end TraitAddedNode
+
 end TraitsVerif.Props.C09
